@@ -50,6 +50,16 @@ func isCanonical(f *sfnt.Font) string {
 	if f.CreationTime.IsZero() && f.ModificationTime.IsZero() {
 		return "no timestamp"
 	}
+	// the name-table identifier carries the calendar day of the timestamp in
+	// the timestamp's own time zone; Read delivers times in the local zone
+	for _, t := range []time.Time{f.ModificationTime, f.CreationTime} {
+		if !t.IsZero() {
+			if t.Format("2006-01-02") != t.Local().Format("2006-01-02") {
+				return "calendar day of the timestamp depends on its time zone"
+			}
+			break
+		}
+	}
 	if f.PermUse < 0 || f.PermUse > 3 {
 		return "PermUse outside the four defined values"
 	}
@@ -88,6 +98,9 @@ func isCanonical(f *sfnt.Font) string {
 		}
 		if o.Tables == nil {
 			return "nil Tables map"
+		}
+		if customNameCount(o.Names) > maxCustomNames {
+			return "more non-standard glyph names than a format-2 post table can index"
 		}
 	case *cff.Outlines:
 		if f.FontMatrix != [6]float64{0.001, 0, 0, 0.001, 0, 0} || f.UnitsPerEm != 1000 {
